@@ -118,9 +118,60 @@ func c18LiteralSeed(r *core.Rng) string {
 	return "SELECT UPPER(" + lit() + "), " + lit() + " LIKE " + lit()
 }
 
+// c18SubquerySeed: a sub-query used as a value (its text is derived from the tree for the column label), assembled
+// from every clause form of the SELECT grammar.
+func c18SubquerySeed(r *core.Rng) string {
+	pick := func(xs ...string) string { return xs[r.Intn(len(xs))] }
+	join := func() string {
+		switch r.Intn(9) {
+		case 0:
+			return "t1 " + pick("", "INNER ", "LEFT ", "RIGHT ", "FULL ", "LEFT OUTER ", "RIGHT OUTER ", "FULL OUTER ") + "JOIN t2 ON t1.id = t2.id"
+		case 1:
+			return "t1 NATURAL " + pick("", "INNER ", "LEFT ", "RIGHT ", "FULL ", "LEFT OUTER ", "RIGHT OUTER ", "FULL OUTER ") + "JOIN t2"
+		case 2:
+			return "t1 " + pick("", "INNER ", "LEFT ", "RIGHT ", "FULL OUTER ") + "JOIN t2 USING (id" + pick("", ", c1") + ")"
+		case 3:
+			return "t1 CROSS JOIN t2" + pick("", " CROSS JOIN t1 x")
+		case 4:
+			return "t1, t2" + pick("", ", LATERAL (SELECT * FROM t2 y WHERE y.id = t1.id) z")
+		case 5:
+			return "t1 " + pick("LEFT ", "INNER ", "LEFT OUTER ", "") + "JOIN LATERAL (SELECT c1 FROM t2 WHERE t2.id = t1.id) z ON " + pick("TRUE", "1 = 1")
+		case 6:
+			return "(SELECT id FROM t1) a " + pick("LEFT ", "") + "JOIN (t2 b " + pick("NATURAL ", "") + "JOIN t1 c" + pick(" ON b.id = c.id", "") + ") ON a.id = b.id"
+		case 7:
+			return pick("CSV(',', `t1.csv`)", "FIXED('spaces', `t.txt`)", "JSON('{}', `t.json`)", "LTSV(`t.ltsv`, 'UTF8')", "`t1.csv`", "STDIN", "DUAL") + pick("", " x", " AS x")
+		}
+		return "t1" + pick("", " a", " AS a")
+	}
+	sel := pick("COUNT(*)", "DISTINCT c1", "MAX(t1.id)", "c1", "LISTAGG(c1, ',') WITHIN GROUP (ORDER BY c1 DESC NULLS LAST)", "id", "RANK() OVER (PARTITION BY c1 ORDER BY id DESC NULLS FIRST)", "SUM(id) OVER (ORDER BY id ROWS BETWEEN 1 PRECEDING AND UNBOUNDED FOLLOWING)", "*")
+	q := "SELECT " + sel + " FROM " + join()
+	if r.P(40) {
+		q += " WHERE " + pick("id > 1", "c1 IS NOT NULL", "id IN (SELECT id FROM t2)", "EXISTS (SELECT 1 FROM t2)", "id BETWEEN 1 AND 2", "c1 LIKE 'a%'", "NOT id = ANY (SELECT id FROM t2)")
+	}
+	if r.P(30) {
+		q += " GROUP BY " + pick("c1", "c1, id") + pick("", " HAVING COUNT(*) > 1")
+	}
+	if r.P(40) {
+		q += " ORDER BY " + pick("id", "id DESC", "id ASC NULLS LAST", "c1 DESC NULLS FIRST, id", "1")
+	}
+	if r.P(40) {
+		q += " " + pick("LIMIT 1", "LIMIT 50 PERCENT", "LIMIT 1 WITH TIES", "LIMIT 10 PERCENT WITH TIES", "LIMIT 1 OFFSET 1", "OFFSET 1", "FETCH FIRST 1 ROW ONLY", "OFFSET 1 ROW FETCH NEXT 2 ROWS WITH TIES", "FETCH FIRST 10 PERCENT ROWS ONLY")
+	}
+	if r.P(20) {
+		q = q + " " + pick("UNION", "UNION ALL", "EXCEPT", "EXCEPT ALL", "INTERSECT", "INTERSECT ALL") + " SELECT " + pick("1", "id FROM t2", "c1 FROM t1 NATURAL LEFT JOIN t2")
+	}
+	if r.P(15) {
+		q = "WITH " + pick("", "RECURSIVE ") + "w (n) AS (SELECT 1" + pick("", " UNION ALL SELECT n + 1 FROM w WHERE n < 3") + ") " + q
+	}
+	return "SELECT (" + q + ")" + pick("", " AS x", ", 1", " + 1", " IS NULL") + pick("", " FROM t1")
+}
+
 func c18GenSeed(r *core.Rng) string {
 	if r.P(12) {
 		return c18LiteralSeed(r)
+	}
+	if r.P(8) {
+		return c18SubquerySeed(r)
 	}
 	if r.P(3) {
 		// a bare character whose code point equals one of the generated parser's token numbers, where a value,
